@@ -39,6 +39,8 @@ pub enum HOp {
     Release,
     /// a sends b a request whose application handler panics (a bug in b's application)
     PanicRpc(usize, usize),
+    /// a dials b and ends the connection the moment its dial has completed (a short-lived client)
+    DialDrop(usize, usize),
 }
 
 pub fn all_ops() -> Vec<HOp> {
@@ -82,6 +84,9 @@ pub fn all_ops_for(which: &str) -> Vec<HOp> {
         for (i, j) in [(0, 1), (1, 2)] {
             v.push(HOp::PanicRpc(i, j));
         }
+        for (i, j) in [(0, 1), (2, 1)] {
+            v.push(HOp::DialDrop(i, j));
+        }
     }
     v
 }
@@ -107,6 +112,7 @@ pub fn op_json(o: &HOp) -> Value {
         HOp::SlowRpc(i, j) => json!(["slow_rpc", i, j]),
         HOp::Release => json!(["release", 0, 0]),
         HOp::PanicRpc(i, j) => json!(["panic_rpc", i, j]),
+        HOp::DialDrop(i, j) => json!(["dial_and_drop", i, j]),
     }
 }
 
@@ -122,6 +128,7 @@ pub fn parse_op(v: &Value) -> HOp {
         "slow_rpc" => HOp::SlowRpc(i, j),
         "release" => HOp::Release,
         "panic_rpc" => HOp::PanicRpc(i, j),
+        "dial_and_drop" => HOp::DialDrop(i, j),
         _ => HOp::Restart(i),
     }
 }
@@ -324,6 +331,14 @@ async fn scenario(sim: Arc<Sim>, unit: Value, which: &'static str) -> Obs {
                 tokio::time::sleep(ms(30)).await;
                 o.shape.push('s');
                 o.log.push(format!("step {step}: n{i} starts a slow rpc to n{j}"));
+            }
+            HOp::DialDrop(i, j) => {
+                let r = nets[i].connect(nets[j].local_addr()).await;
+                if r.is_ok() {
+                    let _ = nets[i].disconnect(ids[j]);
+                }
+                o.shape.push('Q');
+                o.log.push(format!("step {step}: n{i} dials n{j} and disconnects at once: {:?}", r.as_ref().map(|_| ()).map_err(|e| e.to_string())));
             }
             HOp::PanicRpc(i, j) => {
                 let connected = nets[i].peers().contains(&ids[j]);
@@ -530,6 +545,10 @@ pub fn run_unit(_tier: Tier, unit: &Value, out: &mut UnitResult, which: &'static
         seqs = next;
     }
     for s in seqs {
+        // the dial-and-drop operation is explored in histories of up to three operations (both tiers)
+        if s.len() > 3 && s.iter().any(|o| matches!(o, HOp::DialDrop(..))) {
+            continue;
+        }
         // (histories without a slow RPC are kept too: this variant starts from a connected triangle,
         // a non-initial state, which the plain variant only reaches after three dials)
         let mut u = unit.clone();
